@@ -195,7 +195,7 @@ def run_history(w, steps, after_command=None):
             pending = True
         else:
             ev = w.fs_step(s)
-            if ev and ev[0] in ("delete", "move", "truncate", "rename", "file_to_dir", "file_to_link", "undelete", "rewrite_same_second"):
+            if ev and ev[0] in ("delete", "move", "truncate", "rename", "file_to_dir", "file_to_link", "undelete", "rewrite_same_second", "empty_disk", "touch"):
                 pending = True
     return None, stats
 
